@@ -300,10 +300,6 @@ def domain(ctx):
     # a deep tree: clone_from_root near the top, around depth 64 and at the bottom
     cases.append({"src": "text", "text": " + ".join("%dx" % (k % 9 + 1) for k in range(90)), "only_cfr_at": [0, 1, 2, 3, 50, 120, 176, 177, 178]})
     cases.append({"src": "text", "text": "x * " * 70 + "y", "only_cfr_at": [0, 1, 2, 60, 130, 138, 139, 140]})
-    for kind in ("fact", "neg", "sgn", "fact0"):
-        for left in (True, False):
-            for where in ("L", "R"):
-                cases.append({"src": "incomplete", "kind": kind, "left": left, "where": where, "mutations": ["payload"]})
     n = 4 if ctx.quick else 6
     for s in shapes.shapes_upto(n):
         for cls in ("expr", "uniform", "btn", "btn_sameid"):
